@@ -886,7 +886,7 @@ func TestC26(t *testing.T) {
 	r.Rule("case = one append/advance/scanner-advance/clean-reopen/purge history (8-14 ops) on a real queue with tiny segments (64-640 B; entries 12-330 B with index+crc32 and hostile fillers: zeros, small big-endian words); crash images = directory at every op boundary and around the single write() of segment.append / advanceTo / new-segment footer (verifhook), expanded by every prefix truncation of that write (quick: every byte for writes <= 72 B, head/tail/stride otherwise; thorough: every byte) as clean cut, zero fill and 0xA5 fill of the newly extended region; every image is reopened twice with the real code (Current/Advance consumer; append+restart+Scanner consumer) and judged by the crash rule. non-trivial = history produced >= 20 images with >= 2 acked entries pending at some crash point; distinct = (config, op list)")
 	r.Trust("crash model: process death + torn last write (prefix, optionally zero/0xA5 fill of the extended region); no reordering of earlier synced writes", "crc32/bytes.Equal for byte identity")
 	r.Assume("a torn write() leaves a prefix of the written bytes; bytes of the file that the write did not reach keep their old content")
-	n := r.N(100, 800)
+	n := r.N(100, 1500)
 	every := !r.Quick()
 
 	type job struct{ no int }
